@@ -6,9 +6,15 @@ from harness import core, gen, common
 
 ID = 'C14'
 LEAN_TARGETS = ['Props.C14']
-OBLIGATIONS = ['C14.translation_unit', 'C14.translation_moves_point', 'C14.translation_fixes_einf', 'C14.versor_product_composes']
-PARTIAL = ['dilation, rotation (exp of a base bivector), transversion, rounds/flats through points, dim and operator application on objects: no Lean theorem; '
-           'decided by evaluation on the implementation for CGA(2), CGA(3), CGA(4)']
+OBLIGATIONS = ['C14.translation_unit', 'C14.translation_moves_point', 'C14.translation_fixes_einf', 'C14.versor_product_composes',
+               'C14.dilation_unit', 'C14.dilation_scales_point', 'C14.base_bivector_commutes_with_added', 'C14.rotation_commutes',
+               'C14.commutes_with_eo_einf', 'C14.unit_versor_fixes', 'C14.unit_versor_isometry',
+               'C14.transversion_is_inversion_translation_inversion', 'C14.transversion_is_unit',
+               'C14.round_radius', 'C14.round_normalisation', 'C14.round_centre', 'C14.round_contains_iff_distance',
+               'C14.object_contains_defining_points', 'C14.object_grade']
+PARTIAL = ['the exponentials enter the theorems as `a + b E0` with a^2 - b^2 = 1 (dilation) and as a polynomial in B (rotation): closeness of the truncated series to '
+           'cosh/sinh/cos/sin and R~R = 1 for the rotation rotor are analytic, evaluated on the implementation (and C16)',
+           'dim, the class bookkeeping of __call__ and the random constructors are evaluated on the implementation for CGA(2), CGA(3), CGA(4)']
 RULE = ("CGA(2), CGA(3), CGA(4); base vectors with dyadic coordinates in a box of size 4, scales in [1/4, 4], base bivectors with coefficients in [-2, 2], "
         "centres/radii dyadic, point sets of k = 2..n+1 points in general position. Non-trivial = non-zero vector; distinct = distinct (n, clause, input)")
 ASSUMPTIONS = ["tolerance 1e-9 relative to the magnitudes involved (series exponentials: 1e-7)"]
